@@ -1,0 +1,16 @@
+//go:build verif
+
+package keeper
+
+import "github.com/chain4energy/c4e-chain/x/cfedistributor/types"
+
+// VerifBankKeeperWrapper, when set (verification builds only), wraps the bank keeper handed to NewKeeper
+// so that a deterministic simulator can make individual bank calls of the distributor fail.
+var VerifBankKeeperWrapper func(types.BankKeeper) types.BankKeeper
+
+func verifWrapBankKeeper(bankKeeper types.BankKeeper) types.BankKeeper {
+	if VerifBankKeeperWrapper != nil {
+		return VerifBankKeeperWrapper(bankKeeper)
+	}
+	return bankKeeper
+}
